@@ -14,6 +14,11 @@ const lexerPkg = RepoPrefix + "/lexer"
 var c19Lexemes = []string{"script", "foo", "émotion", "x1", "42", "0x1F", "-5", "0", `"x"`, `ascii"y"`, "(", ")", "{", "}", "[", "]", ",", ":",
 	"=", "==", "!=", "!", "<", "<=", ">", ">=", "&&", "||", "*", "&", "|", "-", "`raw text`", "@", `""`, "poryswitch", "ポケ", "_"}
 
+// c19Extra: numbers and identifiers with decimal digits outside ASCII (one
+// token each; several bytes per character). Single-lexeme layout jobs and
+// the position sub-check.
+var c19Extra = []string{"\u0663\u0664", "-\u0663", "1\uff12\uff13", "0\u0663", "x\uff12", "\u00e9\u0663z"}
+
 var c19Reduced = []string{"foo", "42", `"x"`, "(", "==", "`r`", "-", "émotion"}
 
 // layout items; 'C' marks a symbolic comment character
@@ -602,7 +607,7 @@ func RunC19(env *Env, rep *Report) {
 		g   string
 	}
 	var jobs []job
-	for _, a := range c19Lexemes {
+	for _, a := range append(append([]string{}, c19Lexemes...), c19Extra...) {
 		for _, g := range gaps {
 			jobs = append(jobs, job{lex: []string{a}, gap: g})
 		}
@@ -652,7 +657,7 @@ func RunC19(env *Env, rep *Report) {
 		// positions also after raw sections and strings with multi-byte text
 		// and line breaks inside (the state they leave behind is checked through
 		// the position of the token that follows)
-		posLexemes := append(append([]string{}, c19Lexemes...), "`é`", "`a\né ポ`", "`\n`", "\"é ポ\"", "\"a\n é\"")
+		posLexemes := append(append(append([]string{}, c19Lexemes...), c19Extra...), "`é`", "`a\né ポ`", "`\n`", "\"é ポ\"", "\"a\n é\"")
 		for _, lx := range posLexemes {
 			for _, g := range []string{"", " ", "\t  ", "\n", "\r\n ", "# c\n", "// é\n  ", "  #x\n\n\t", "\n\n"} {
 				jobs = append(jobs, job{lex: []string{lx}, pos: true, g: g})
